@@ -92,7 +92,7 @@ def judge(values, floors, comps, norms=None):
                 worst = (d, dev, v, chord)
         if worst:
             probs.append({"component": c, "what": "discontinuous", "d": worst[0], "deviation/|a|": worst[1],
-                          "value": worst[2], "chord": worst[3]})
+                          "value": worst[2], "chord": worst[3], "d0_off_line": abs(even) / mag})
     return probs, nadm
 
 
@@ -120,8 +120,10 @@ def thdm_case(draw):
     p = draw(gen.thdm_mass(mrange=(30.0, 3000.0), running=draw(st.booleans()),
                            sba=st.one_of(st.floats(0.9, 1.0), st.floats(-1.0, 1.0), st.just(1.0))))
     vary = draw(st.sampled_from(["mH", "mA", "mHp", "mh"]))
+    kind = draw(st.sampled_from(["eq", "eq", "sum", "diff", "double", "half", "kallen", "kallen"]))
+    if kind == "kallen" and draw(st.booleans()):
+        vary = "mHp"     # the fermionic Kaellen zeros m_H+ = m_u +- m_d exist only on paths that move m_H+
     others = [n for n in ("mh", "mH", "mA", "mHp") if n != vary]
-    kind = draw(st.sampled_from(["eq", "eq", "sum", "diff", "double", "half", "kallen"]))
     if kind == "eq":
         a = draw(st.sampled_from(others + ["MZ", "MW", "mhSM", "t"]))
         tgt = {"kind": "eq", "a": a}
@@ -136,7 +138,8 @@ def thdm_case(draw):
     else:
         # Kaellen zeros: neutral scalar = m_H+ +- MW, m_H+ = neutral +- MW, m_H+ = m_u +- m_d
         if vary == "mHp":
-            a, b = draw(st.sampled_from([("mH", "MW"), ("mA", "MW"), ("mh", "MW"), ("t", "b"), ("t", "s"), ("c", "b")]))
+            a, b = draw(st.sampled_from([("mH", "MW"), ("mA", "MW"), ("mh", "MW"), ("t", "b"), ("t", "b"), ("t", "b"),
+                                         ("t", "s"), ("c", "b")]))
         else:
             a, b = "mHp", "MW"
         tgt = {"kind": draw(st.sampled_from(["sum", "diff"])), "a": a, "b": b, "kallen": True}
@@ -233,9 +236,27 @@ def prop_thdm(case):
     if nadm == 0:
         discard("no-admissible-component")
     if probs:
+        extra = {}
+        if cls.startswith("kallen-charged"):
+            extra["window0"] = charged_window(case["p"], values[0.0].get("MHm.1", m0))
         return Fail("a_mu not finite / not continuous across a mass coincidence", coincidence=cls,
-                    vary=vary, m0=m0, problems=probs[:5], n=len(probs))
+                    vary=vary, m0=m0, problems=probs[:5], n=len(probs), **extra)
     return None
+
+
+def charged_window(p, mhp):
+    """the library's own test for 'at the Kaellen zero of (m_u^2, m_d^2, m_H+^2)' (phi_over_y in gm2_ffunctions.cpp:
+    |x_u - (1 -+ sqrt(x_d))^2| < 1e-8 x_d), evaluated for the quark pair nearest to the threshold: well below 1e-8 the
+    library returns the analytic limit of Phi/lambda^2, which is accurate (C02 measures 1e-10 there)"""
+    best = math.inf
+    for mu_ in p["sm"]["mu"]:
+        for md_ in p["sm"]["md"]:
+            if md_ <= 0 or mhp <= 0:
+                continue
+            xu, xd = (mu_ / mhp) ** 2, (md_ / mhp) ** 2
+            s_ = math.sqrt(xd)
+            best = min(best, abs((xu - 1) / xd + 2 / s_ - 1), abs((xu - 1) / xd - 2 / s_ - 1))
+    return best
 
 
 # ------------------------------------------------------------------ MSSM
@@ -335,6 +356,14 @@ def known_match(entry, case, fail):
         return False
     if "vary" in m and fail.detail.get("vary") not in m["vary"]:
         return False
+    if "trusted_window" in m and fail.detail.get("window0", math.inf) < m["trusted_window"]:
+        # the configuration at d = 0 is one the library recognises as the Kaellen zero and treats with the analytic
+        # limit: the value AT the coincidence must be right; only its neighbours (outside the window) are excused
+        for q in fail.detail.get("problems", []):
+            if q.get("what") == "not finite" and any(d == 0.0 for d, _ in q.get("at", [])):
+                return False
+            if q.get("what") == "discontinuous" and q.get("d0_off_line", 0.0) > m.get("d0_off_line_max", 0.03):
+                return False
     comps = set(m.get("components", []))
     kinds = set(m.get("what", ["discontinuous", "not finite"]))
     if "max_deviation" in m and "what" not in m:
